@@ -956,6 +956,13 @@ def run_e2e(ctx, hb, rng, n_scen, f28_ok, counts):
                 ctx.count_case(b"".join(r["data"] for r in c["reqs"]) + c["mode"].encode(), nontrivial=len(c["reqs"]) > 0)
                 if hyp and not f28_ok and not bad:
                     bad = ["O3: pipelined responses out of order / lost behind a close, and finding F28 is not listed in KNOWN_FINDINGS.txt"]
+                if bad and to == "1" and not reproduces(ctx, hb, setup, s, ci, f28_ok):
+                    # DESIGN 5.2: a found input is replayed before it is reported.  A watchdog expiry that does not repeat in two
+                    # replays with a longer watchdog is recorded in the evidence, not reported as a violation of a safety property.
+                    counts["watchdog_timeouts_not_reproduced"] = counts.get("watchdog_timeouts_not_reproduced", 0) + 1
+                    ctx.extra.setdefault("unreproduced_timeouts", []).append({"connection": conn_json(c), "received_bytes": len(obs), "first_failure": bad[0]})
+                    ctx.notes.append("end-to-end: one connection hit the %d ms watchdog (%s) and did not do so again in 2 replays" % (4000, bad[0][:80]))
+                    bad = []
                 if bad:
                     reported += 1
                 if bad and ctx.violation_budget("property", bad[0]):
@@ -970,6 +977,24 @@ def run_e2e(ctx, hb, rng, n_scen, f28_ok, counts):
             ctx.violation("property", "O1: the end-to-end harness (real server on loopback) ended abnormally: rc=%s %s" % (rc, err[-200:].replace("\n", " ")),
                           {"stderr": err[-2000:]}, found_input=False)
     counts["e2e_requests"] = counts.get("e2e_requests", 0) + nreq
+
+
+def reproduces(ctx, hb, setup, s, ci, f28_ok):
+    """Replay one scenario twice (fresh server, 10 s watchdog); True if connection `ci` fails again."""
+    line_spec = " ".join(conn_spec(c) for c in s["conns"])
+    ops = setup + ["e2e run 10000 25 " + line_spec] * 2 + ["e2e stop"]
+    out, rc, err = ctx.run_lines([hb], ops, timeout=120)
+    for l in out[len(setup):len(setup) + 2]:
+        parts = l.split()
+        if ci >= len(parts) or parts[ci].count(":") < 2:
+            return True
+        hx, eof, to = parts[ci].rsplit(":", 2)
+        if hx.startswith("big:"):
+            continue
+        bad, _ = judge_conn(s["conns"][ci], unhex(hx), eof == "1", to == "1", f28_ok, {})
+        if bad:
+            return True
+    return rc != 0
 
 
 def conn_json(c):
